@@ -25,11 +25,39 @@ S2C = b"Tor safe cookie authentication server-to-controller hash"
 C2S = b"Tor safe cookie authentication controller-to-server hash"
 
 
+# one Tor (one cookie) for the whole process, and what an eavesdropper saw of the last honest SAFECOOKIE exchange with it
+COOKIE = os.urandom(32)
+LAST = {}
+
+
+def _warm():
+    """an honest SAFECOOKIE exchange on an earlier connection of this process, recorded for a later replay"""
+    tmp = tempfile.mkdtemp(prefix="verif-auth-")
+    path = os.path.join(tmp, "control_auth_cookie")
+    with open(path, "wb") as f:
+        f.write(COOKIE)
+    proto = TorControlProtocol()
+    tr = proto_helpers.StringTransport()
+    proto.post_bootstrap.addErrback(lambda f: None)
+    proto.makeConnection(tr)
+    tr.clear()
+    proto.dataReceived(('250-PROTOCOLINFO 1\r\n250-AUTH METHODS=SAFECOOKIE COOKIEFILE="%s"\r\n250-VERSION Tor="0.4.8.0"\r\n250 OK\r\n' % path).encode())
+    line = tr.value().decode().strip().split()
+    tr.clear()
+    cnonce = binascii.unhexlify(line[2])
+    snonce = os.urandom(32)
+    LAST.update(hash=hmac.new(S2C, COOKIE + cnonce + snonce, hashlib.sha256).hexdigest().upper(),
+                snonce=binascii.hexlify(snonce).decode().upper(), cnonce=cnonce)
+    proto.dataReceived(("250 AUTHCHALLENGE SERVERHASH=%s SERVERNONCE=%s\r\n" % (LAST["hash"], LAST["snonce"])).encode())
+    proto.connectionLost(failure.Failure(error.ConnectionDone("warm-up over")))
+    shutil.rmtree(tmp, True)
+
+
 class Run(object):
     def __init__(self, scen, order_seed=0):
         self.scen = scen
         self.tmp = tempfile.mkdtemp(prefix="verif-auth-")
-        self.cookie = os.urandom(32)
+        self.cookie = COOKIE
         self.cookiepath = None
         c = scen["cookie"]
         if c != "nofield":
@@ -138,7 +166,14 @@ class Run(object):
                 good = hmac.new(S2C, self.cookie + self.nonce + self.snonce, hashlib.sha256).hexdigest().upper()
                 sn = binascii.hexlify(self.snonce).decode().upper()
                 if k == "ok":
+                    LAST.update(hash=good, snonce=sn, cnonce=self.nonce)
                     self.feed("250 AUTHCHALLENGE SERVERHASH=%s SERVERNONCE=%s\r\n" % (good, sn))
+                elif k == "replay":
+                    # a server that does not know the cookie answers with what it overheard on an earlier connection
+                    if not LAST:
+                        _warm()
+                    self.snonce = binascii.unhexlify(LAST["snonce"])
+                    self.feed("250 AUTHCHALLENGE SERVERHASH=%s SERVERNONCE=%s\r\n" % (LAST["hash"], LAST["snonce"]))
                 elif k == "wronghash":
                     bad = hmac.new(S2C, os.urandom(32) + self.nonce + self.snonce, hashlib.sha256).hexdigest().upper()
                     self.feed("250 AUTHCHALLENGE SERVERHASH=%s SERVERNONCE=%s\r\n" % (bad, sn))
